@@ -1,35 +1,46 @@
-(* ---- Loop.v (prototype) ---- *)
+(* Loop.v : the event loop of src/world.rs:958-1199 as a stack machine, generic in the
+   state and in what one delivery does.
+   [run e st] = run the handlers of [e] in order until one takes it, then apply the built-in
+   effect; it returns the events sent (in send order), the new state, and whether a handler
+   panicked (unwinding).  The mechanism: the queue is a Vec used as a stack (top at the END);
+   the events pushed during one delivery are the segment [events_before..], which is reversed
+   before the next pop.  On unwinding, [unwind] (EventDropper::drop) receives what is left. *)
 From Coq Require Import List Lia PeanoNat Arith.
 Import ListNotations.
+
 Section Loop.
 Variables (St Ev : Type).
-(* one delivery: run the handlers of e (in order, until one takes it), apply the built-in effect;
-   returns the events sent, in send order, and the new state *)
-Variable run : Ev -> St -> list Ev * St.
+Variable run : Ev -> St -> list Ev * St * bool.
+Variable unwind : list Ev -> St -> St.
 
-(* mechanism: Vec used as a stack, top at the END; segment pushed during one delivery is reversed *)
-Definition step (q : list Ev) (st : St) : option (Ev * list Ev * St) :=
+Inductive outcome := Finished | Aborted.
+
+Definition step (q : list Ev) (st : St) : option (Ev * list Ev * St * bool) :=
   match rev q with
   | [] => None
   | e :: _ =>
       let rest := removelast q in
       let before := length rest in
-      let '(sent, st') := run e st in
+      let '(sent, st', ab) := run e st in
       let q1 := rest ++ sent in                                  (* pushes *)
       let q2 := firstn before q1 ++ rev (skipn before q1) in     (* reverse pushed segment *)
-      Some (e, q2, st')
+      Some (e, (if ab then q1 else q2), st', ab)
   end.
-Fixpoint flush (fuel : nat) (q : list Ev) (st : St) (tr : list Ev) : option (list Ev * St) :=
+
+Fixpoint flush (fuel : nat) (q : list Ev) (st : St) (tr : list Ev) : option (list Ev * St * outcome) :=
   match fuel with
   | 0 => None
   | S f => match step q st with
-           | None => Some (tr, st)
-           | Some (e, q', st') => flush f q' st' (tr ++ [e])
+           | None => Some (tr, st, Finished)
+           | Some (e, q', st', ab) =>
+               if ab then Some (tr ++ [e], unwind q' st', Aborted)
+               else flush f q' st' (tr ++ [e])
            end
   end.
-(* spec: depth-first, first-sent-first *)
+
+(* spec: depth-first, first-sent-first; only for deliveries without unwinding *)
 Inductive deliver : Ev -> St -> list Ev -> St -> Prop :=
-| D e st sent st1 tr st2 : run e st = (sent, st1) -> deliver_list sent st1 tr st2 -> deliver e st (e :: tr) st2
+| D e st sent st1 tr st2 : run e st = (sent, st1, false) -> deliver_list sent st1 tr st2 -> deliver e st (e :: tr) st2
 with deliver_list : list Ev -> St -> list Ev -> St -> Prop :=
 | DN st : deliver_list [] st [] st
 | DC e es st tr1 st1 tr2 st2 : deliver e st tr1 st1 -> deliver_list es st1 tr2 st2 -> deliver_list (e :: es) st (tr1 ++ tr2) st2.
@@ -38,10 +49,10 @@ with deliver_list_ind' := Minimality for deliver_list Sort Prop.
 Combined Scheme deliver_mutind from deliver_ind', deliver_list_ind'.
 
 Lemma step_snoc rest e st : step (rest ++ [e]) st =
-  let '(sent, st') := run e st in Some (e, rest ++ rev sent, st').
+  let '(sent, st', ab) := run e st in Some (e, (if ab then rest ++ sent else rest ++ rev sent), st', ab).
 Proof.
   unfold step. rewrite rev_app_distr. cbn [rev app]. rewrite removelast_last.
-  destruct (run e st) as [sent st']. f_equal. f_equal. f_equal.
+  destruct (run e st) as [[sent st'] ab]. destruct ab; [reflexivity|]. f_equal. f_equal. f_equal. f_equal.
   rewrite firstn_app, firstn_all, Nat.sub_diag. cbn [firstn]. rewrite app_nil_r.
   rewrite skipn_app, skipn_all, Nat.sub_diag. reflexivity.
 Qed.
@@ -58,9 +69,10 @@ Lemma deliver_list_split es1 : forall es2 st tr st2,
   exists tr1 st1 tr2, deliver_list es1 st tr1 st1 /\ deliver_list es2 st1 tr2 st2 /\ tr = tr1 ++ tr2.
 Proof.
   induction es1 as [|e es1 IH]; intros es2 st tr st2 H.
-  - exists [], st, tr. repeat split; [constructor|exact H].
-  - cbn in H. inversion H; subst. destruct (IH _ _ _ _ H6) as (ta & sa & tb & Ha & Hb & ->).
-    exists (tr1 ++ ta), sa, tb. repeat split; [econstructor; eauto|exact Hb|now rewrite app_assoc].
+  - exists [], st, tr. split; [constructor|split; [exact H|reflexivity]].
+  - cbn in H. inversion H; subst.
+    match goal with Hd : deliver_list (es1 ++ es2) _ _ _ |- _ => destruct (IH _ _ _ _ Hd) as (ta & sa & tb & Ha & Hb & ->) end.
+    exists (tr1 ++ ta), sa, tb. split; [econstructor; eauto|split; [exact Hb|now rewrite app_assoc]].
 Qed.
 
 (* completeness: a terminating depth-first delivery is what the stack machine computes *)
@@ -83,15 +95,16 @@ Proof.
 Qed.
 
 Theorem flush_complete e st tr st' :
-  deliver e st tr st' -> exists n, forall m, flush (n + S m) [e] st [] = Some (tr, st').
+  deliver e st tr st' -> exists n, forall m, flush (n + S m) [e] st [] = Some (tr, st', Finished).
 Proof.
   intros H. destruct (proj1 flush_complete_mut _ _ _ _ H [] []) as [n Hn].
   exists n. intros m. cbn [app] in Hn. rewrite Hn. reflexivity.
 Qed.
 
-(* soundness: whatever the stack machine returns is a depth-first delivery of the whole stack *)
+(* soundness: whatever the stack machine returns normally is a depth-first delivery of the
+   whole stack (top first), and the queue is empty when it returns *)
 Theorem flush_sound : forall n q st acc tr st',
-  flush n q st acc = Some (tr, st') ->
+  flush n q st acc = Some (tr, st', Finished) ->
   exists tr0, tr = acc ++ tr0 /\ deliver_list (rev q) st tr0 st'.
 Proof.
   induction n as [|n IH]; intros q st acc tr st' H; [discriminate|].
@@ -99,13 +112,28 @@ Proof.
   - assert (q = []) by (destruct q as [|x q]; [reflexivity|]; cbn in Er; destruct (rev q); discriminate).
     subst q. cbn in H. inversion H; subst. exists []. split; [now rewrite app_nil_r|constructor].
   - assert (Hq : q = rev r ++ [e]) by (rewrite <- (rev_involutive q), Er; reflexivity).
-    rewrite Hq, step_snoc in H. destruct (run e st) as [sent st1] eqn:Hrun.
+    rewrite Hq, step_snoc in H. destruct (run e st) as [[sent st1] ab] eqn:Hrun.
+    destruct ab; [discriminate|].
     apply IH in H. destruct H as (tr0 & -> & Hd).
     rewrite rev_app_distr, !rev_involutive in Hd.
     apply deliver_list_split in Hd. destruct Hd as (ta & sa & tb & Ha & Hb & ->).
     exists (e :: ta ++ tb). split; [now rewrite <- app_assoc|].
     change (e :: ta ++ tb) with ((e :: ta) ++ tb). econstructor; [econstructor; eauto|exact Hb].
 Qed.
+
+(* on unwinding, the dropper receives exactly: the untouched part of the queue followed by
+   what the panicking delivery had pushed, in push order *)
+Theorem flush_abort_queue : forall n q st acc tr st',
+  flush n q st acc = Some (tr, st', Aborted) ->
+  exists rest e sent st1 st0, run e st0 = (sent, st1, true) /\ st' = unwind (rest ++ sent) st1.
+Proof.
+  induction n as [|n IH]; intros q st acc tr st' H; [discriminate|].
+  cbn [flush] in H. destruct (rev q) as [|e r] eqn:Er.
+  - unfold step in H. rewrite Er in H. discriminate.
+  - assert (Hq : q = rev r ++ [e]) by (rewrite <- (rev_involutive q), Er; reflexivity).
+    rewrite Hq, step_snoc in H. destruct (run e st) as [[sent st1] ab] eqn:Hrun.
+    destruct ab.
+    + inversion H; subst. exists (rev r), e, sent, st1, st. auto.
+    + eapply IH; eauto.
+Qed.
 End Loop.
-Check flush_complete. Check flush_sound.
-Print Assumptions flush_sound. Print Assumptions flush_complete.
